@@ -197,7 +197,51 @@ class ValueTextMixin:
         return ' '.join([enc(getattr(pr, f)) for f in PREF_FIELDS] +
                         [''.join('1' if getattr(pr, f) else '0' for f in PREF_FLAGS)])
 
+    TERM_PRODS = ['ColorValue', 'Dimension', 'URIValue', 'Value', 'variable', 'MSValue', 'CSSCalc', 'function']
+
+    def vt_grammar_shape(self):
+        """the production tree `PropertyValue._setCssText` hands to `ProdParser.parse`, captured from the live
+        code, as nested tuples (names, optional / nextSor / mayEnd / stop / stopAndKeep / `toSeq is False` /
+        stopIfNoMoreMatch, min / max)"""
+        pp = self.cu.prodparser
+        cap = []
+        orig = pp.ProdParser.parse
+
+        def spy(this, text, name, productions, *a, **k):
+            if name == 'PropertyValue':
+                cap.append(productions)
+            return orig(this, text, name, productions, *a, **k)
+        pp.ProdParser.parse = spy
+        try:
+            self.cu.css.PropertyValue('a')
+        finally:
+            pp.ProdParser.parse = orig
+
+        def show(n):
+            if isinstance(n, pp.Prod):
+                return ('prod', n._name, bool(n.optional), bool(n.nextSor), bool(n.mayEnd), bool(n.stop),
+                        bool(n.stopAndKeep), n.toSeq is False, bool(n.stopIfNoMoreMatch))
+            kids = [show(k) for k in n._prods]
+            if isinstance(n, pp.Sequence):
+                return ('Sequence', bool(n.optional), n._min, n._max if n._max < 10 ** 9 else None, kids)
+            return ('Choice', bool(n.optional), kids)
+        return show(cap[0]) if cap else None
+
+    def vt_expected_shape(self):
+        """the grammar the automaton `gstep` of Model/ValueText.lean is derived from"""
+        term = ('Choice', False, [('prod', n, False, True, False, False, False, False, False) for n in self.TERM_PRODS])
+        operator = ('Choice', True, [('prod', 'whitespace', False, False, True, False, False, True, False),
+                                    ('prod', 'comma', True, False, False, False, False, False, False),
+                                    ('prod', 'slash', True, False, False, False, False, False, False)])
+        end = ('prod', 'END', True, False, False, False, True, False, False)
+        return ('Sequence', False, 1, 1, [term, ('Sequence', True, 0, None, [operator, end, term])])
+
     def corr_value_text(self, ctx):
+        got, exp = self.vt_grammar_shape(), self.vt_expected_shape()
+        ctx.notes['value_grammar_shape_matches'] = got == exp
+        if got != exp:
+            ctx.disagree('value grammar shape (PropertyValue._setCssText productions vs. the grammar gstep is '
+                         'derived from)', {'captured': repr(got)[:2000]}, repr(got)[:600], repr(exp)[:600])
         rng = self.rng(ctx, 'valuetext')
         n = ctx.n(900, 14000)
         cases = []
@@ -372,6 +416,24 @@ class ValueTextMixin:
                 ctx.violate(clause, w, {'Property.value': b, 'PropertyValue.value': a})
             return True
         return False
+
+    def oracle_vtab_direct(self, ctx):
+        """U+000B is not CSS white space: a colour with it inside rgb() is no CSS 2.1 value. Direct validate calls
+        accept it (known finding C13-vtab-whitespace-direct, region = direct call + U+000B in the value); a parsed
+        declaration must never be valid with it"""
+        clause = 'for keyword-list and single-type properties the verdict agrees with the CSS 2.1 grammar'
+        for name in ('color', 'background-color', 'border-top-color', 'outline-color'):
+            for v in ('rgb(\x0b1,2,3)', 'rgb(1,\x0b2,3)', 'rgb(1%,2%,3%\x0b)', 'rgb(1\x0b,2,3)'):
+                ctx.case(('vtab', name, v), nontrivial=True, sample=None, kind='vtab/direct')
+                if self.P.validate(name, v):
+                    ctx.violate(clause, {'call': 'cssutils.profile.validate', 'property': name, 'value': v},
+                                {'css21_grammar_member': False}, known='C13-vtab-whitespace-direct')
+                sheet = self.parse('a{%s:%s}' % (name, v))
+                ps = [p for r in sheet if hasattr(r, 'style') for p in r.style.getProperties(all=True)]
+                ctx.case(('vtab-parsed', name, v), nontrivial=False, kind='vtab/parsed')
+                if any(p.valid for p in ps):
+                    ctx.violate(clause, {'css': 'a{%s:%s}' % (name, v), 'property': name, 'value': v},
+                                {'css21_grammar_member': False})
 
     def vt_fixed(self, text, cache):
         """a fixed text cut into pieces with the real tokenizer (simple tokens only)"""
